@@ -6,7 +6,7 @@
    Proofs/DiscretizeProofs.v.  No bound on the number of rows, values, buckets or on min_freq. *)
 From Coq Require Import ZArith List Permutation Sorted.
 From AC.Model Require Import Base Float GroupedList Quantiles Ordinal Categorical CheckC09.
-From AC.Proofs Require Import DiscretizeProofs.
+From AC.Proofs Require Import GroupedListSpec DiscretizeProofs QuantFitProofs.
 Import ListNotations.
 Open Scope Z_scope.
 Open Scope list_scope.
@@ -169,6 +169,35 @@ Print Assumptions C09_checker_sound.
 
 Open Scope string_scope.
 (* hypotheses are satisfiable and the model computes *)
+(* end to end, at the level of the fitted order of a QUANTITATIVE feature (boundaries -> buckets ->
+   rare pass with min_freq/2 -> groups): for every sample and min_freq the model never fails
+   internally, the order is well formed, and the fitted buckets satisfy the frequency bound *)
+Theorem C09_quantitative_fit_never_fails_internally : forall mf nan_cnt d,
+  (exists g, quantitative_fit true mf nan_cnt d = QFit g /\ WF g)
+  \/ quantitative_fit true mf nan_cnt d = QFail QFloat
+  \/ quantitative_fit true mf nan_cnt d = QFail QIndex.
+Proof. exact quantitative_fit_ok. Qed.
+Print Assumptions C09_quantitative_fit_never_fails_internally.
+
+Theorem C09_quantitative_fit_buckets_frequent : forall mf nan_cnt d g,
+  quantitative_fit true mf nan_cnt d = QFit g ->
+  let n := nrows nan_cnt d in
+  let half := half_min_freq mf in
+  f_is_nan half = false ->
+  (List.length (fitted_buckets g d) <= 1)%nat \/
+  (forall b, In b (fitted_buckets g d) -> f_is_nan (b_freq n b) = false -> fgeb (b_freq n b) half = true).
+Proof. exact quantitative_fit_frequencies_ge. Qed.
+Print Assumptions C09_quantitative_fit_buckets_frequent.
+
+(* the predicate evaluated at run time on the IMPLEMENTATION's quantitative order holds of the model *)
+Theorem C09_quantitative_checker_predicate_holds_on_model : forall mf nan_cnt d g,
+  quantitative_fit true mf nan_cnt d = QFit g ->
+  exists q qs, q_of_min_freq mf = Some q /\
+    find_quantiles_v true q (nrows nan_cnt d) (vcs_of d) = QOk qs /\
+    quant_b mf nan_cnt d qs (keys g) (content g) = true.
+Proof. exact quantitative_fit_passes_checker. Qed.
+Print Assumptions C09_quantitative_checker_predicate_holds_on_model.
+
 Example C09_nonvacuous :
   let d := [(VStr "a", 8, 3); (VStr "b", 2, 1); (VStr "d", 10, 6)] in
   let order := [VStr "a"; VStr "b"; VStr "c"; VStr "d"] in
